@@ -52,15 +52,19 @@ class TlcResult:
         return self.rc == 0 and self.violated is None
 
 
-def decode_payloads(out: str) -> list:
-    res = []
-    for m in _PAYLOAD.finditer(out):
-        body = m.group(1)
-        try:
-            res.append(json.loads(json.loads('"' + body + '"')))
-        except json.JSONDecodeError as e:  # pragma: no cover
-            raise MachineryError(f"cannot decode TLC payload: {body[:200]!r}: {e}") from e
-    return res
+def decode_payload(body: str):
+    try:
+        return json.loads(json.loads('"' + body + '"'))
+    except json.JSONDecodeError as e:  # pragma: no cover
+        raise MachineryError(f"cannot decode TLC payload: {body[:200]!r}: {e}") from e
+
+
+def decode_payloads(out: str, raw: bool = False) -> list:
+    """raw=True keeps every payload as the undecoded text (decode_payload turns one into a value): large families are
+    then decoded inside the worker that replays them instead of being held as Python objects by the parent."""
+    if raw:
+        return [m.group(1) for m in _PAYLOAD.finditer(out)]
+    return [decode_payload(m.group(1)) for m in _PAYLOAD.finditer(out)]
 
 
 def run_tlc(
@@ -81,6 +85,7 @@ def run_tlc(
     jvm: list[str] | None = None,
     dfs: bool = False,
     expect_violation: bool = False,
+    raw_payloads: bool = False,
 ) -> TlcResult:
     """Run TLC on ``module`` (a .tla in spec_dir) with config ``cfg``."""
     spec_dir = Path(spec_dir or SPEC_DIR)
@@ -134,7 +139,7 @@ def run_tlc(
     m = _VIOLATED.search(out)
     if m:
         res.violated = m.group(1) or m.group(2) or m.group(0)
-    res.payloads = decode_payloads(out)
+    res.payloads = decode_payloads(out, raw=raw_payloads)
     (work / f"tlc_{tag}.log").write_text(out[-200000:] if len(out) > 400000 else out)
     if not expect_violation and not res.ok:
         # distinguish spec-level property failure from tool failure: both are machinery failures
